@@ -187,6 +187,58 @@ pub fn run(ctx: &Ctx) -> i32 {
         }
         res
     });
+    // ---- the feature sits in a chunk beyond index 65535 of its frame ---------------------------------------------------------
+    let mut sum = sum;
+    let far = run_stage(ctx, "feature-beyond-chunk-65535", ctx.tier.pick(10u64, 60u64), |i| {
+        let mut rng = Rng::derive(ctx.seed, "C15-far", i);
+        let mut cfg = GenCfg::tiny();
+        cfg.max_layers = 3;
+        cfg.max_frames = 2;
+        cfg.tilemaps = false;
+        let (sp, palprog) = gen::gen_sprite(&mut rng, &cfg);
+        let mut spec = compile_with(&sp, &mut rng, &Variation::none(), &palprog);
+        let total = [65_535usize, 65_536, 65_537, 70_000][((i / 5 + i) % 4) as usize];
+        let switch = i % 5;
+        let f = if switch < 2 { 0 } else { spec.frames.len() - 1 };
+        crate::program::pad_frame(&mut spec, f, total, 0, &mut rng);
+        let nl = sp.layers.len() as u16;
+        let (chunk, name): (ChunkSpec, &str) = match switch {
+            0 => {
+                let mut l = LayerM::image("far");
+                l.blend = *rng.pick(&[19u16, 255, 0xffff]);
+                (ChunkSpec::Layer { l, junk: LayerJunk { default_w: 0, default_h: 0, r1: 0, r2: 0 } }, "blend-mode")
+            }
+            1 => (ChunkSpec::Layer { l: LayerM::image("far"), junk: LayerJunk { default_w: 0, default_h: 0, r1: 0, r2: 0 } }, "layer-type"),
+            2 => (ChunkSpec::ColorProfile { ty: 2, flags: 0, gamma: 0, icc: Some(vec![1, 2, 3, 4]) }, "icc-profile"),
+            3 => (ChunkSpec::ColorProfile { ty: 1, flags: 1, gamma: 0x0001_0000, icc: None }, "fixed-gamma"),
+            _ => {
+                // a cel of unknown type on a layer that has no cel in this frame yet (else on a fresh top layer)
+                let free = (0..nl).find(|l| !sp.cels.contains_key(&(f as u16, *l)) && sp.layers[*l as usize].kind == LayerKind::Image);
+                match free {
+                    Some(l) => (ChunkSpec::Cel { layer: l, c: CelM { x: 0, y: 0, opacity: 255, content: CelContentM::Image { w: 1, h: 1, pixels: vec![0; sp.fmt.bpp()] }, ud: None }, storage: Storage::Raw, reserved: [0; 7], cel_type_override: Some(*rng.pick(&[4u16, 255, 0xffff])) }, "cel-type"),
+                    None => (ChunkSpec::ColorProfile { ty: 2, flags: 0, gamma: 0, icc: Some(vec![9]) }, "icc-profile"),
+                }
+            }
+        };
+        spec.frames[f].chunks.push(chunk.into());
+        spec.frames[f].count_style = CountStyle::NewOnly;
+        let (mut bytes, map) = encode(&spec);
+        if switch == 1 {
+            let t = *rng.pick(&[3u16, 255, 0xffff]);
+            let fl: Vec<_> = map.fields.iter().filter(|x| x.name.ends_with(":layer.type")).collect();
+            let fld = fl[fl.len() - 1];
+            bytes[fld.off] = t as u8;
+            bytes[fld.off + 1] = (t >> 8) as u8;
+        }
+        let mut res = CaseResult::ok(crate::rng::hash_bytes(&bytes), 1, &format!("far-switch:{}", name));
+        res.count("far_feature_chunk_index", spec.frames[f].chunks.len() as u64 - 1);
+        match load(&bytes) {
+            Err(e) => res.count(&format!("refused_as:{}", err_variant(&e)), 1),
+            Ok(a) => res.violations.push(Violation::new(format!("unsupported-feature-loads|{}|beyond-chunk-65535", name), format!("file whose chunk #{} of frame {} uses the unsupported feature '{}' loaded ({} layers)", spec.frames[f].chunks.len() - 1, f, name, a.num_layers())).with_input(&bytes).with_extra(json!({"switch": name}))),
+        }
+        res
+    });
+    sum.merge(far);
     finish(
         ctx,
         sum,
